@@ -537,6 +537,11 @@ class _State:
             elif isinstance(s, (ast.With,)):
                 items += self.doc_block(s.body, ctx, sw, ew)
                 continue
+            elif isinstance(s, ast.Try) and not s.handlers and not s.orelse:
+                # try: <writes> finally: <close / publish>: on the path that completes, the body's writes then the finaliser's
+                items += self.doc_block(s.body, ctx, sw, ew)
+                items += self.doc_block(s.finalbody, ctx, sw, ew)
+                continue
             elif isinstance(s, (ast.While, ast.Try)):
                 for n in ast.walk(s):
                     if isinstance(n, ast.Call) and isinstance(n.func, ast.Attribute) and n.func.attr == "write":
